@@ -638,12 +638,12 @@ pub const RAW_SIZES: [usize; 4] = [300, 9_000, 70_000, 150_000];
 /// sender has been pending three times in a row, then everything)
 pub const RAW_DRAINS: [usize; 4] = [0, 4096, 65_536, usize::MAX];
 
-fn raw_wire_with<R: Rt>(sizes: &[usize], drain: usize, small: bool, abandon: Option<(usize, usize)>) -> Result<u64, (String, String)> {
+fn raw_wire_with<R: Rt>(sizes: &[usize], drain: usize, small: bool, abandon: Option<(usize, usize)>, chains: bool) -> Result<u64, (String, String)> {
     use std::io::Read;
     let rt = R::new();
     let (sa, mut peer) = small_pair(small);
-    let conn: Connection<R::Sock> = Connection::new(rt.wrap(sa));
-    let (_r, mut w) = conn.split();
+    let mut conn: Connection<R::Sock> = Connection::new(rt.wrap(sa));
+    let cp: *mut Connection<R::Sock> = &mut conn;
     let msgs: Vec<Call<Pay>> = sizes.iter().enumerate().map(|(i, s)| odd_message(i, *s)).collect();
     let mut expect = Vec::new();
     for m in &msgs {
@@ -668,10 +668,20 @@ fn raw_wire_with<R: Rt>(sizes: &[usize], drain: usize, small: bool, abandon: Opt
     };
     let describe = |got: &Vec<u8>| {
         let at = got.iter().zip(expect.iter()).position(|(a, b)| a != b).unwrap_or(got.len().min(expect.len()));
-        format!("message sizes {sizes:?}{}, peer takes {} bytes per pending poll, {} socket buffers: the peer read {} bytes, serde_json's encodings + NULs are {} bytes, first difference at offset {at}", abandon.map(|(m, k)| format!(", the send of message #{m} abandoned at its pending poll #{k} (what it had not written yet goes out with the next send / the final flush)")).unwrap_or_default(), if drain == usize::MAX { "all".to_string() } else { drain.to_string() }, if small { "smallest" } else { "default" }, got.len(), expect.len())
+        format!("message sizes {sizes:?}{}, peer takes {} bytes per pending poll, {} socket buffers: the peer read {} bytes, serde_json's encodings + NULs are {} bytes, first difference at offset {at}", abandon.map(|(m, k)| format!("{}, the send of message #{m} abandoned at its pending poll #{k} (what it had not written yet goes out with the next send / the final flush)", if chains { ", each sent as a chain of its own" } else { "" })).unwrap_or_default(), if drain == usize::MAX { "all".to_string() } else { drain.to_string() }, if small { "smallest" } else { "default" }, got.len(), expect.len())
     };
     for (k, m) in msgs.iter().enumerate() {
-        let mut fut: SendFut = Box::pin(unsafe { (*(&mut w as *mut WriteConnection<<R::Sock as Socket>::WriteHalf>)).send_call(&*(m as *const Call<Pay>)) });
+        let mp = m as *const Call<Pay>;
+        // SAFETY: the connection outlives every future (each is dropped before the next is made)
+        let mut fut: SendFut = if chains {
+            // every message goes out as a chain of its own (`chain_call(..).send()`)
+            Box::pin(async move {
+                let chain = unsafe { (*cp).chain_call::<Pay, serde_json::Value, serde_json::Value>(&*mp) }?;
+                chain.send().await.map(|_| ())
+            })
+        } else {
+            Box::pin(unsafe { (*cp).send_call(&*mp) })
+        };
         let mut pendings = 0usize;
         let mut guard = 0usize;
         loop {
@@ -703,7 +713,7 @@ fn raw_wire_with<R: Rt>(sizes: &[usize], drain: usize, small: bool, abandon: Opt
     }
     if abandon.is_some() {
         // whatever is still pending goes out with a final flush
-        let mut fut: SendFut = Box::pin(unsafe { (*(&mut w as *mut WriteConnection<<R::Sock as Socket>::WriteHalf>)).flush() });
+        let mut fut: SendFut = Box::pin(unsafe { (*cp).flush() });
         let mut guard = 0usize;
         loop {
             guard += 1;
@@ -728,15 +738,15 @@ fn raw_wire_with<R: Rt>(sizes: &[usize], drain: usize, small: bool, abandon: Opt
     Ok(got.len() as u64)
 }
 
-pub fn raw_wire_case(rt: RtKind, sizes: &[usize], drain: usize, small: bool, abandon: Option<(usize, usize)>) -> Result<u64, (String, String)> {
+pub fn raw_wire_case(rt: RtKind, sizes: &[usize], drain: usize, small: bool, abandon: Option<(usize, usize)>, chains: bool) -> Result<u64, (String, String)> {
     match rt {
-        RtKind::Tokio => raw_wire_with::<TokioRt>(sizes, drain, small, abandon),
-        RtKind::Smol => raw_wire_with::<SmolRt>(sizes, drain, small, abandon),
+        RtKind::Tokio => raw_wire_with::<TokioRt>(sizes, drain, small, abandon, chains),
+        RtKind::Smol => raw_wire_with::<SmolRt>(sizes, drain, small, abandon, chains),
     }
 }
 
 /// Cases with one abandoned send: (runtime, sizes, drain, small buffers, (message, pending poll)).
-pub fn raw_wire_abandon_cases(thorough: bool) -> Vec<(RtKind, Vec<usize>, usize, bool, (usize, usize))> {
+pub fn raw_wire_abandon_cases(thorough: bool) -> Vec<(RtKind, Vec<usize>, usize, bool, (usize, usize), bool)> {
     let seqs: Vec<Vec<usize>> = if thorough {
         vec![vec![70_000, 300], vec![150_000, 300], vec![150_000, 70_000], vec![300, 150_000, 300], vec![70_000, 70_000, 300], vec![150_000, 300, 9_000]]
     } else {
@@ -749,7 +759,9 @@ pub fn raw_wire_abandon_cases(thorough: bool) -> Vec<(RtKind, Vec<usize>, usize,
                 for small in [true, false] {
                     for m in 0..s.len() {
                         for k in [1usize, 2, 4] {
-                            v.push((rt, s.clone(), d, small, (m, k)));
+                            for chains in [false, true] {
+                                v.push((rt, s.clone(), d, small, (m, k), chains));
+                            }
                         }
                     }
                 }
